@@ -11,8 +11,10 @@ import extract_sources  # noqa: E402
 PROP_FILE = "Properties/C15.v"
 W = 2 ** 64
 MAXU = W - 1
-RULE = ("cases = op lists over RCVD n, BALANCE, ONSENT n, GRANT, ABORT, BURST mtu rsv (quota wi wo)*, POLLWAIT with CASE cfg "
-        "(minpkt); non-trivial = at least 2 bursts that hand bytes to IO before any grant/abort, one of them Initial-bearing "
+RULE = ("cases = op lists over RCVD n, BALANCE, ONSENT n, GRANT, ABORT, BURST mtu rsv (quota wi wo)*, POLLWAIT, BURSTP mtu rsv "
+        "(quota (want in_flight)x4)* (the four packet requests of load_spaces with their in-flight flags), RACE callA callB "
+        "schedule (two real calls on two threads, one atomic operation at a time; all schedules up to 6 bits enumerated for "
+        "the directed families), STRESS narr amt (support: bounded real two-thread run) with CASE cfg (minpkt); non-trivial = at least 2 bursts that hand bytes to IO before any grant/abort, one of them Initial-bearing "
         "(wi > 0), and at least one arrival between them; distinct by hash of cfg+ops")
 TRUSTED_BASE = [
     "model coq/Model/AntiAmp.v transcribes qconnection/src/path/aa.rs one atomic operation per definition (fetch_add "
@@ -23,10 +25,17 @@ TRUSTED_BASE = [
     "transliterates its control structure around the real AntiAmplifier/Constraints, and tools/extract_sources.py re-extracts "
     "the three shape facts the transliteration relies on (coq/Generated/Sources.v burst_shape_*, pinned by c15_glue_shape)",
     "the interleaving theorems (c15_resume, c15_ratio_interleaved) are about the small-step system of Model/AntiAmp.v; the "
-    "correspondence stream exercises the same atomic pieces only in sequential composition",
+    "correspondence stream exercises the same atomic pieces in sequential composition and, for pairs of calls, under "
+    "enumerated two-thread schedules (op RACE: the real methods run on two threads and are handed the turn one atomic "
+    "operation of `credit`/`state` at a time through the cfg(gmquic_verif) instrumented atomics of aa.rs, "
+    "`verif_atomic`); longer concurrent histories are covered by the theorems only",
+    "op STRESS (real parallelism, bounded, no schedule control) is support only: it can only ever report a failure, "
+    "its passing proves nothing; the model states the conservation law it checks (sent = credit + 3 x arrivals)",
 ]
 MODELLED = ("AntiAmplifier::{new,on_rcvd,balance,on_sent,grant,abort}; SendWaker::{poll_wait_for,wake_by} projected on CREDIT; "
-            "Constraints::{new,constrain,commit}; load_spaces (Initial packet, the other spaces as one request, pad-to-full), "
+            "Constraints::{new,constrain,commit(len, in_flight)}; load_spaces (Initial packet first, then the packet requests of the "
+            "other spaces in order, each with its in-flight flag, through ONE Constraints; pad-to-full); pairs of calls at "
+            "atomic-operation granularity under explicit two-thread schedules (race); "
             "burst (per-segment assembler, try_fold, reserved forward header), send_packets (one debit of the sum). NOT "
             "modelled: what the spaces actually write (input `want`), load_ping/load_heartbeat (bounded by the same "
             "constrain), cc.send_quota (input), PathStatus flags, usize other than 64 bit")
@@ -43,7 +52,11 @@ MANIFEST = {
             "open): a burst with more than one segment assembles every segment against the same undebited balance, an "
             "Initial-bearing datagram is padded to the whole buffer regardless of credit, the reserved forward header is "
             "added outside the constrained buffer (witnesses by vm_compute, replayed on the real AntiAmplifier/Constraints); "
-            "it is proved, with credit = 3R - H exactly, for every history without an op of that class.",
+            "it is proved, with credit = 3R - H exactly, for every history without an op of that class. One datagram of any "
+            "number of coalesced packets (in flight or ACK-only) stays within the credit its assembler read "
+            "(c15_segment_within_credit); an arrival racing with a debit is linearizable for every schedule of their atomic "
+            "operations, so neither the deposit nor the debit is lost (c15_race_rcvd_sent_linearizable, c15_race_conserves); "
+            "the correspondence stream runs the real methods on two threads under every schedule of 6 steps.",
     "note": "Trusted: Coq kernel, extraction, OCaml driver, Rust harness, Python generators/oracle, regex shape extractor. "
             "F19 is confirmed on the real primitives through a transliterated burst loop (the real Burst needs a whole "
             "connection). F19w (wrapping fetch_sub in on_sent) is repaired by a `fix:` commit; its witness is a regression "
@@ -69,6 +82,15 @@ def known_class(op, credit, state):
         return False
     if t == 2:
         return a[0] > credit
+    if t == 8:
+        # two racing calls: debits that together exceed the credit there was before the race (an over-debit saturates)
+        return sum(a[2 * i + 1] for i in (0, 1) if a[2 * i] == 2) > credit
+    if t == 7:
+        mtu, rsv = a[0], a[1]
+        segs = _psegs(a)
+        if len(segs) > 1 or rsv > 0:
+            return True
+        return any(s[1] > 0 for s in segs) and credit < mtu - rsv
     if t == 5:
         mtu, rsv = a[0], a[1]
         segs = [a[i:i + 3] for i in range(2, len(a) - 2, 3)]
@@ -114,7 +136,7 @@ def oracle(case, obs):
             if state == 0:
                 state = 2
                 notified = True
-        elif tag == 5:
+        elif tag in (5, 7):
             mtu, rsv = args[0], args[1]
             status, nseg = body[0], body[1]
             lens = body[2:2 + nseg]
@@ -127,7 +149,46 @@ def oracle(case, obs):
                 return "abort: op %d bytes handed to IO on an aborted path: %s" % (k, body)
             if state == 0 and allowed == 0 and klass is None and total != 0:
                 return "ratio: op %d sent %d bytes with no credit" % (k, total)
+            # one datagram (however many packets are coalesced into it, in flight or ACK-only) is assembled against the
+            # credit read once: without Initial padding / reserved header it cannot exceed what the path may still send
+            if state == 0 and klass is None and nseg == 1 and total > allowed:
+                return "ratio: op %d a datagram of %d bytes (headers, ACK-only packets and padding included) was handed to IO with %d bytes of credit (received %d, handed to IO before %d)" % (
+                    k, total, allowed, R, H)
             H += total
+        elif tag == 8:
+            # two calls racing on two threads: whatever the schedule, what was received and what was reported as sent is
+            # the same as for the two calls one after the other
+            sa, sb = body[0], body[1]
+            res = [body[2:4], body[4:6]]
+            if sa > 3 or sb > 3:
+                return "race: op %d a call performed %d/%d atomic operations" % (k, sa, sb)
+            calls = [(args[0], args[1]), (args[2], args[3])]
+            kinds = [c[0] for c in calls]
+            for (ck, cn), r in zip(calls, res):
+                if r[0] == -7:
+                    return "abnormal: op %d a racing call panicked" % k
+                if ck == 0:
+                    R += cn
+                    if state == 0:
+                        notified = True
+            for (ck, cn), r in zip(calls, res):
+                if ck == 2 and state != 2 and not (3 in kinds or 4 in kinds):
+                    H += cn
+                if ck == 1 and state == 0 and r[0] == 1 and r[1] != MAXU and r[1] > 3 * R:
+                    return "underflow: op %d a racing balance() granted %d although only %d bytes were received" % (k, r[1], R)
+            if state == 0 and (3 in kinds or 4 in kinds):
+                # grant racing with abort: the first compare_exchange in the schedule wins; read it off the balance
+                state = 1 if bal == [1, MAXU] and 3 in kinds else 2 if bal[0] == 2 and 4 in kinds else (1 if 3 in kinds else 2)
+                notified = True
+        elif tag == 9:
+            if state == 0:
+                narr, amt = min(args[0], 200000), min(args[1], 65535)
+                R += narr * amt
+                if narr > 0:
+                    notified = True
+                H += body[0]
+            elif body[0] != 0:
+                return "stress: op %d bytes counted on a validated / aborted path" % k
         elif tag == 6:
             ready, wk = body
             if pending_poll and notified and (ready != 1 or wk <= last_wakes):
@@ -170,6 +231,20 @@ def _segs(a):
     return [a[i:i + 3] for i in range(2, len(a) - 2, 3)]
 
 
+def _psegs(a):
+    """BURSTP segments as (quota, w_initial, [(want, in_flight)] of the other three packets)"""
+    out = []
+    i = 2
+    while i + 8 < len(a):
+        out.append((a[i], a[i + 1], [(a[i + 3 + 2 * j], a[i + 4 + 2 * j]) for j in range(3)]))
+        i += 9
+    return out
+
+
+def _allsegs(t, a):
+    return _segs(a) if t == 5 else _psegs(a)
+
+
 def nontrivial(case):
     bursts = 0
     initial = False
@@ -180,17 +255,18 @@ def nontrivial(case):
             break
         if t == 0 and a[0] > 0 and seen_burst:
             arrival_between = True
-        if t == 5 and _segs(a):
+        if t in (5, 7) and _allsegs(t, a):
             bursts += 1
             seen_burst = True
-            if any(s[1] > 0 for s in _segs(a)):
+            if any(s[1] > 0 for s in _allsegs(t, a)):
                 initial = True
     return bursts >= 2 and initial and arrival_between
 
 
 def hist(case):
     lab = []
-    names = ("rcvd", "balance", "onsent", "grant", "abort", "burst", "pollwait")
+    names = ("rcvd", "balance", "onsent", "grant", "abort", "burst", "pollwait", "burstp", "race", "stress")
+    calln = ("rcvd", "balance", "onsent", "grant", "abort")
     R = H = 0
     state = 0
     for t, a in case.ops:
@@ -198,6 +274,41 @@ def hist(case):
         if t == 0:
             R += a[0]
             lab.append("rcvd:%s" % ("0" if a[0] == 0 else "<40" if a[0] < 40 else "<1200" if a[0] < 1200 else ">=1200"))
+        elif t == 7:
+            s = _psegs(a)
+            lab.append("segs:%d" % min(len(s), 4))
+            if a[1] > 0:
+                lab.append("burst:reserved-header")
+            if any(x[1] > 0 for x in s):
+                lab.append("burst:initial")
+            for x in s:
+                pk = [(x[1], 1)] + x[2]
+                live = [f for (w, f) in pk if w > 0]
+                lab.append("burstp:packets%d" % len(live))
+                if any(f == 0 for f in live):
+                    lab.append("burstp:ack-only-packet")
+                if len(live) > 1 and live[0] == 0:
+                    lab.append("burstp:ack-only-then-more")
+            if known_class((t, a), max(0, 3 * R - H), state):
+                lab.append("burst:known-class")
+            lab.append("burst:state%d" % state)
+        elif t == 8:
+            ka, kb = a[0], a[2]
+            lab.append("race:%s|%s" % (calln[ka] if ka < 5 else "nop", calln[kb] if kb < 5 else "nop"))
+            lab.append("race:sched%d" % min(len(a) - 4, 7))
+            lab.append("race:state%d" % state)
+            for i in (0, 2):
+                if a[i] == 0:
+                    R += a[i + 1]
+                elif a[i] == 2:
+                    H += a[i + 1]
+            if state == 0 and (3 in (ka, kb) or 4 in (ka, kb)):
+                state = 1 if 3 in (ka, kb) else 2
+        elif t == 9:
+            lab.append("stress:%s" % ("small" if a[0] < 1000 else "large"))
+            if state == 0:
+                R += min(a[0], 200000) * min(a[1], 65535)
+                H = 3 * R
         elif t == 5:
             s = _segs(a)
             lab.append("segs:%d" % min(len(s), 4))
@@ -241,6 +352,37 @@ def ref_burst(credit, state, minpkt, a):
     return (s1 + s2 + rsv) if s1 + s2 > 0 else 0
 
 
+def ref_segment(credit, minpkt, buf, quota, pkts):
+    """bytes one CLEAN datagram takes: the packet requests (want, in_flight), Initial first, through one credit/quota pair
+    (generator bookkeeping only)"""
+    cl, sq, total, first = credit, quota, 0, 0
+    for j, (w, f) in enumerate(pkts):
+        room = min(buf - total, cl, sq)
+        sz = min(w, room) if (w > 0 and room >= minpkt) else 0
+        if sz > 0:
+            cl -= sz
+            if f:
+                sq -= sz
+        total += sz
+        if j == 0:
+            first = sz
+    return buf if first > 0 else total
+
+
+def ref_burstp(credit, state, minpkt, a):
+    s = _psegs(a)
+    if state == 1:
+        credit = MAXU
+    if state == 2 or not s or credit == 0:
+        return 0
+    q, w0, rest = s[0]
+    n = ref_segment(credit, minpkt, a[0] - a[1], q, [(w0, 1)] + rest)
+    return n + a[1] if n > 0 else 0
+
+
+CALLS_SAFE = [(0, 0), (0, 1), (0, 14), (0, 400), (1, 0)]
+
+
 def gen_random(rng, n, prefix):
     cases = []
     for i in range(n):
@@ -252,7 +394,33 @@ def gen_random(rng, n, prefix):
         for _ in range(rng.randint(2, 14)):
             credit = max(0, 3 * R - H) if state == 0 else (MAXU if state == 1 else 0)
             r = rng.random()
-            if r < 0.3:
+            if r < 0.04:
+                # two racing calls under a random schedule; debits stay within the credit unless the case is dirty
+                def pick():
+                    q = rng.random()
+                    if q < 0.4:
+                        return [0, rng.choice([0, 1, 14, 100, 1200])]
+                    if q < 0.7:
+                        return [2, (credit + rng.randint(1, 50)) if (dirty and rng.random() < 0.3) else rng.randint(0, min(credit // 2, 3000))]
+                    if q < 0.9:
+                        return [1, 0]
+                    return [rng.choice([3, 4]), 0]
+                ca, cb = pick(), pick()
+                if {ca[0], cb[0]} & {3, 4} and 2 in (ca[0], cb[0]):
+                    cb = [1, 0]
+                ops.append((8, ca + cb + [rng.randint(0, 1) for _ in range(rng.randint(0, 7))]))
+                for c in (ca, cb):
+                    if c[0] == 0:
+                        R += c[1]
+                    elif c[0] == 2 and state != 2:
+                        H += c[1]
+                if state == 0 and 3 in (ca[0], cb[0]) and 4 not in (ca[0], cb[0]):
+                    state = 1
+                elif state == 0 and 4 in (ca[0], cb[0]) and 3 not in (ca[0], cb[0]):
+                    state = 2
+                elif state == 0 and 3 in (ca[0], cb[0]):
+                    break            # grant racing with abort: the schedule decides; end the case here
+            elif r < 0.3:
                 m = rng.random()
                 nrx = (rng.choice([0, 1, 13, 14, 40, 100, 400, 1199, 1200, 1201, 1452]) if m < 0.7 else rng.randint(0, 65535))
                 ops.append((0, [nrx]))
@@ -275,8 +443,23 @@ def gen_random(rng, n, prefix):
                     wo = rng.choice([0, minpkt, rng.randint(1, mtu), mtu - rsv, mtu * 2])
                     segs += [q, wi, wo]
                 a = [mtu, rsv] + segs
-                ops.append((5, a))
-                if not known_class((5, a), credit, state):
+                tag5 = 5
+                if rng.random() < 0.35:
+                    # the four packet requests of load_spaces with in-flight flags (ACK-only packets are not in flight)
+                    tag5 = 7
+                    a = [mtu, rsv]
+                    for _s in range(nseg):
+                        q, wi, wo = segs[3 * _s: 3 * _s + 3]
+                        a += [q, wi, rng.choice([1, 1, 0])]
+                        for _k in range(3):
+                            w = rng.choice([0, 0, minpkt, 45, rng.randint(1, mtu), wo, mtu])
+                            a += [w, rng.choice([1, 1, 0]) if w > 60 else rng.choice([0, 0, 1])]
+                ops.append((tag5, a))
+                if tag5 == 7 and not known_class((7, a), credit, state):
+                    H += ref_burstp(credit, state, minpkt, a)
+                elif tag5 == 7:
+                    dirty = True
+                elif not known_class((5, a), credit, state):
                     H += ref_burst(credit, state, minpkt, a)
                 else:
                     H += 0   # estimate lost: the rest of the case is `dirty` anyway
@@ -313,6 +496,8 @@ ALPHABET = [
     (5, [50, 4, 1000, 0, 30]),                      # reserved forward header
     (2, [1]), (2, [50]),
     (3, []), (4, []), (6, []),
+    (7, [50, 0, 1000, 0, 1, 0, 1, 12, 0, 50, 1]),    # an ACK-only (not in flight) packet followed by an in-flight one
+    (8, [0, 1, 2, 1, 0, 0, 1, 1]),                   # on_rcvd(1) racing with on_sent(1), schedule A A B B
 ]
 
 
@@ -328,10 +513,70 @@ def gen_exhaustive(length, prefix, sample=None, rng=None):
     return cases
 
 
+def gen_coalesce(rng, prefix, full):
+    """directed: ONE datagram of several coalesced packets near the end of the budget - every in-flight mask of the three
+    non-Initial packet requests, credit below / around / above what they want, quota binding or not"""
+    cases = []
+    n = 0
+    wants = [(45, 1200, 0), (21, 21, 21), (0, 45, 300), (100, 0, 100)] if full else [(45, 1200, 0), (21, 21, 21), (0, 45, 300)]
+    for rcvd in ([1, 7, 14, 50, 100, 400] if full else [1, 14, 50, 400]):
+        for quota in (10 ** 6, 100, 30):
+            for wset in wants:
+                for mask in range(8):
+                    fl = [(mask >> j) & 1 for j in range(3)]
+                    pk = []
+                    for w, f in zip(wset, fl):
+                        pk += [w, f]
+                    a = [1200, 0, quota, 0, 1] + pk
+                    ops = [(0, [rcvd]), (7, a), (1, []), (7, list(a)), (0, [rng.choice([1, 14, 100])]), (7, list(a)), (6, [])]
+                    cases.append(Case("%s%d" % (prefix, n), ops, cfg=[rng.choice([10, 20])]))
+                    n += 1
+    return cases
+
+
+RACE_PAIRS = [
+    ((0, 50), (2, 3600)), ((2, 3600), (0, 50)), ((0, 1), (2, 1)), ((0, 7), (0, 9)), ((2, 100), (2, 200)),
+    ((0, 14), (1, 0)), ((1, 0), (0, 14)), ((2, 3600), (1, 0)), ((1, 0), (3, 0)), ((1, 0), (4, 0)), ((3, 0), (4, 0)),
+    ((0, 5), (3, 0)), ((4, 0), (0, 5)), ((1, 0), (1, 0)),
+]
+
+
+def gen_race(rng, prefix, full):
+    """directed: two calls racing, EVERY schedule (each call performs at most 3 atomic operations, so the 64 schedules of
+    6 bits are all interleavings), from a path with credit and from an exhausted path with a parked sender"""
+    cases = []
+    n = 0
+    pres = [[(0, [1200])], [(6, [])], [(0, [1200]), (2, [3600]), (6, [])]]
+    for pre in pres:
+        for (ca, cb) in RACE_PAIRS:
+            has_credit = pre[0][0] == 0 and len(pre) == 1
+            if not has_credit and (ca[0] == 2 and ca[1] > 1 or cb[0] == 2 and cb[1] > 1):
+                continue
+            scheds = itertools.product((0, 1), repeat=6) if (full or has_credit) else [tuple(rng.randint(0, 1) for _ in range(6)) for _ in range(12)]
+            for sc in scheds:
+                ops = [(t, list(a)) for t, a in pre] + [(8, [ca[0], ca[1], cb[0], cb[1]] + list(sc)), (6, []), (1, []),
+                                                      (5, [1200, 0, 10 ** 6, 0, 1200]), (0, [10]), (6, [])]
+                cases.append(Case("%s%d" % (prefix, n), ops, cfg=[40]))
+                n += 1
+    return cases
+
+
+def gen_stress(rng, prefix, count):
+    """SUPPORT: real two-thread runs (bounded); a disciplined sender against a stream of small arrivals"""
+    cases = []
+    for i in range(count):
+        ops = [(0, [rng.choice([0, 100, 1200])]), (9, [rng.choice([20000, 50000]), rng.randint(1, 7)]), (1, []),
+               (0, [50]), (5, [1200, 0, 10 ** 6, 0, 1200])]
+        cases.append(Case("%s%d" % (prefix, i), ops, cfg=[40]))
+    return cases
+
+
 def gen(rng, tier):
     if tier == "quick":
-        return gen_exhaustive(3, "ex3-") + gen_exhaustive(4, "ex4s-", 0.12, rng) + gen_random(rng, 3000, "r")
-    return (gen_exhaustive(4, "ex4-") + gen_exhaustive(5, "ex5s-", 0.3, rng) + gen_random(rng, 100000, "r"))
+        return (gen_exhaustive(3, "ex3-") + gen_exhaustive(4, "ex4s-", 0.08, rng) + gen_coalesce(rng, "co-", False) +
+                gen_race(rng, "race-", False) + gen_stress(rng, "stress-", 6) + gen_random(rng, 3000, "r"))
+    return (gen_exhaustive(4, "ex4-") + gen_exhaustive(5, "ex5s-", 0.2, rng) + gen_coalesce(rng, "co-", True) +
+            gen_race(rng, "race-", True) + gen_stress(rng, "stress-", 40) + gen_random(rng, 100000, "r"))
 
 
 def mutate(rng, case, j):
@@ -346,6 +591,10 @@ def mutate(rng, case, j):
             elif t == 5 and len(a) >= 5:
                 kk = rng.randrange(2, len(a))
                 a[kk] = max(0, a[kk] + rng.randint(-3, 3))
+        elif r < 0.55:
+            ops.insert(rng.randint(0, len(ops)), (8, [0, rng.choice([1, 14, 100]), 2, rng.choice([0, 1, 3]), ] + [rng.randint(0, 1) for _ in range(6)]))
+        elif r < 0.62:
+            ops.insert(rng.randint(0, len(ops)), (7, [rng.choice([50, 1200]), 0, 10 ** 6, 0, 1, 0, 1, rng.randint(10, 60), 0, rng.randint(0, 1300), 1]))
         elif r < 0.7:
             ops.insert(rng.randint(0, len(ops)), (0, [rng.choice([0, 1, 14, 100])]))
         else:
